@@ -128,3 +128,37 @@ fn k_c01_avx2_score_f32_permute_m2_pow2() {
     let expect = (0.0f32 + pm[0][seq.matrix()[0][c].as_index()]) + pm[1][seq.matrix()[1][c].as_index()];
     assert!(scores.matrix()[0][c].to_bits() == expect.to_bits());
 }
+
+/// C01 / C06 (bounded): the AVX2 GATHER kernel (alphabets with more than 8 symbols: Protein). The scored row is the LAST row of a
+/// matrix whose allocation is exact (4 rows), so a load that strays past the row leaves the allocation; the table row holds 21
+/// arbitrary non-NaN cells; every one of the 32 columns gets the cell of its symbol.
+#[kani::proof]
+#[kani::unwind(34)]
+#[kani::stub(std::arch::x86_64::_mm256_shuffle_epi8, m256_shuffle_epi8)]
+#[kani::stub(std::arch::x86_64::_mm256_i32gather_ps, m256_i32gather_ps)]
+#[kani::stub(std::arch::x86_64::_mm256_cvtepu8_epi32, m256_cvtepu8_epi32)]
+#[kani::stub(std::arch::x86_64::_mm256_permute2f128_ps, m256_permute2f128_ps)]
+#[kani::stub(std::arch::x86_64::_mm256_stream_ps, m256_stream_ps)]
+#[kani::stub(std::arch::x86_64::_mm256_load_si256, m256_load_si256)]
+#[kani::stub(std::arch::x86_64::_mm_sfence, m_sfence)]
+fn k_c01_avx2_score_f32_gather_protein_m1() {
+    const R: usize = 4; const M: usize = 1;
+    let mut sm = unsafe { DenseMatrix::<AminoAcid, U32>::uninitialized(R) };
+    let mut r = 0;
+    while r < R - 1 { let mut c = 0; while c < 32 { sm[r][c] = Protein::symbols()[20]; c += 1; } r += 1; }
+    let mut c = 0;
+    while c < 32 { let k: u8 = kani::any(); kani::assume(k < 21); sm[R - 1][c] = Protein::symbols()[k as usize]; c += 1; }
+    let seq = StripedSequence::<Protein, U32>::with_wrap_unchecked(sm, 32 * R, M - 1);
+    let mut pm = unsafe { DenseMatrix::<f32, U21>::uninitialized(4) };
+    let mut c = 0;
+    while c < 21 { let x: f32 = kani::any(); kani::assume(!x.is_nan()); pm[0][c] = x; c += 1; }
+    // the table has 4 allocated rows (exact allocation) but the motif is its first row only: a 1-row view is built by resizing
+    pm.resize(1);
+    let mut scores = StripedScores::<f32, U32>::empty();
+    *scores.matrix_mut() = unsafe { DenseMatrix::<f32, U32>::uninitialized(1) };
+    Avx2::score_f32_rows_into::<Protein, _, _>(&pm, &seq, R - 1..R, &mut scores);
+    assert!(scores.matrix().rows() == 1);
+    let c: usize = kani::any(); kani::assume(c < 32);
+    let expect = 0.0f32 + pm[0][seq.matrix()[R - 1][c].as_index()];
+    assert!(scores.matrix()[0][c].to_bits() == expect.to_bits());
+}
